@@ -211,8 +211,8 @@ def _next_prefix(trace):
         tr.pop()
     if not tr:
         return None
-    d, _ = tr.pop()
-    return tr + [[not d, False]]
+    last = tr.pop()
+    return tr + [[not last[0], False] + last[2:]]
 
 
 def _smt(formula):
